@@ -249,42 +249,40 @@ impl McnkChunk {
         // TODO: Add split file support with chunk discovery
         let materials = None;
 
-        let refs = if header.has_refs() {
-            let data = read_subchunk(reader, mcnk_start_offset, header.ofs_refs, "MCRF")?;
-            if !data.is_empty() {
-                Some(McrfChunk::read_le(&mut std::io::Cursor::new(data))?)
-            } else {
-                None
+        // ofs_refs points at MCRF in monolithic files and at MCRD (followed by MCRW) in
+        // Cataclysm+ split files. The sub-chunk magic decides which list is filled, so a
+        // plain MCRF is no longer reported a second and third time as MCRD and MCRW.
+        let (mut refs, mut doodad_refs, mut wmo_refs) = (None, None, None);
+        if header.has_refs() {
+            let refs_pos = mcnk_start_offset + u64::from(header.ofs_refs);
+            reader.seek(SeekFrom::Start(refs_pos))?;
+            let first = ChunkHeader::read_le(reader)?;
+            let mut data = vec![0u8; first.size as usize];
+            reader.read_exact(&mut data)?;
+            if first.id == ChunkId::MCRD {
+                if !data.is_empty() {
+                    doodad_refs = Some(McrdChunk::read_le(&mut std::io::Cursor::new(data))?);
+                }
+                // MCRW, when present, follows MCRD directly
+                let next_pos = refs_pos + 8 + u64::from(first.size);
+                if next_pos + 8 <= mcnk_start_offset + 8 + u64::from(mcnk_size) {
+                    reader.seek(SeekFrom::Start(next_pos))?;
+                    if let Ok(next) = ChunkHeader::read_le(reader) {
+                        if next.id == ChunkId::MCRW && next.size > 0 {
+                            let mut data = vec![0u8; next.size as usize];
+                            reader.read_exact(&mut data)?;
+                            wmo_refs = Some(McrwChunk::read_le(&mut std::io::Cursor::new(data))?);
+                        }
+                    }
+                }
+            } else if first.id == ChunkId::MCRW {
+                if !data.is_empty() {
+                    wmo_refs = Some(McrwChunk::read_le(&mut std::io::Cursor::new(data))?);
+                }
+            } else if !data.is_empty() {
+                refs = Some(McrfChunk::read_le(&mut std::io::Cursor::new(data))?);
             }
-        } else {
-            None
-        };
-
-        // MCRD shares ofs_refs with MCRF (Cataclysm+ split files)
-        // TODO: Add version/file-type detection to distinguish MCRF vs MCRD
-        let doodad_refs = if header.has_refs() {
-            let data = read_subchunk(reader, mcnk_start_offset, header.ofs_refs, "MCRF")?;
-            if !data.is_empty() {
-                Some(McrdChunk::read_le(&mut std::io::Cursor::new(data))?)
-            } else {
-                None
-            }
-        } else {
-            None
-        };
-
-        // MCRW shares ofs_refs with MCRF (Cataclysm+ split files)
-        // TODO: Add version/file-type detection to distinguish MCRF vs MCRD/MCRW
-        let wmo_refs = if header.has_refs() {
-            let data = read_subchunk(reader, mcnk_start_offset, header.ofs_refs, "MCRF")?;
-            if !data.is_empty() {
-                Some(McrwChunk::read_le(&mut std::io::Cursor::new(data))?)
-            } else {
-                None
-            }
-        } else {
-            None
-        };
+        }
 
         // MCAL and MCSH use size from MCNK header, not from subchunk header
         // Some early Vanilla files have corrupted size values in subchunk headers
